@@ -15,8 +15,10 @@ THEOREMS = ["GmqttVerif.Broker.session_present_iff",
             "GmqttVerif.Broker.displaced_gets_nothing",
             "GmqttVerif.Takeover.takeover_exclusive",
             "GmqttVerif.Takeover.register_only_when_free",
-            "GmqttVerif.Takeover.takeover_as_is_broken"]
+            "GmqttVerif.Takeover.takeover_as_is_broken",
+            "GmqttVerif.C05Source.takeover_check_under_mu"]
 COMPS = ["broker"]
+NEEDS_FACTS = ["MuHeld"]
 
 def gen_termrace(rng):
     """TerminateSession of an ONLINE client while its connection takes 50-300 ms to wind down (OnClosed hook), and a CONNECT with
